@@ -168,7 +168,16 @@ def get_code(thing: object, *nested_names: str) -> types.CodeType:
 
     top_name = code.co_name
     for idx, name in enumerate(nested_names):
-        for const in code.co_consts:
+        # A generic function or class (PEP 695) is defined inside an
+        # additional scope that holds its type parameters
+        candidates = [
+            inner
+            for const in code.co_consts
+            if isinstance(const, types.CodeType)
+            and const.co_name == f"<generic parameters of {name}>"
+            for inner in const.co_consts
+        ]
+        for const in (*code.co_consts, *candidates):
             if isinstance(const, types.CodeType) and const.co_name == name:
                 code = const
                 break
